@@ -192,33 +192,73 @@ def extract(src):
                 tfuncs[name] = (arg, ExprParser(bodyx).parse())
             except Inconclusive:
                 pass
-    # convert()
+    # convert(): statement-level parse.  Recognised statements (in order of appearance): optional
+    # early returns `if <string predicate on from_unit/to_unit> { return Ok(value); }`, the two
+    # resolutions, the category guard, the two base conversions, `Ok(result)`.
     m = re.search(r"pub fn convert\(value: f64, from_unit: &str, to_unit: &str\) -> Result<f64> \{(.*?)\n\}", src, re.S)
     if not m:
         raise Inconclusive("convert() not found")
-    cb = m.group(1)
-    g = re.search(r"if\s+(\w+)\.category\s*(!=|==)\s*(\w+)\.category\s*\{\s*return Err", cb)
+    cb = re.sub(r"//[^\n]*", "", m.group(1))
+    rest = cb
+    early = []
+    def take(pattern, text, flags=re.S):
+        mm = re.search(pattern, text, flags)
+        if not mm:
+            return None, text
+        return mm, text[:mm.start()] + text[mm.end():]
+    # early returns before the resolutions
+    mpre = re.search(r"let \w+ = resolve_unit\(", rest)
+    pre_end = mpre.start() if mpre else -1
+    pre = rest[:pre_end] if pre_end >= 0 else ""
+    for em in re.finditer(r"if\s+(.*?)\s*\{\s*return\s+(Ok\((\w+)\)|Err\(.*?\));\s*\}", pre, re.S):
+        cond = re.sub(r"\s+", "", em.group(1))
+        PREDS = {
+            "from_unit==to_unit": "eq", "to_unit==from_unit": "eq",
+            "from_unit.eq_ignore_ascii_case(to_unit)": "eq_ascii_ci", "to_unit.eq_ignore_ascii_case(from_unit)": "eq_ascii_ci",
+            "from_unit.to_lowercase()==to_unit.to_lowercase()": "eq_ci", "to_unit.to_lowercase()==from_unit.to_lowercase()": "eq_ci",
+        }
+        if cond not in PREDS:
+            raise Inconclusive("convert(): early return on an unrecognised condition %r" % em.group(1))
+        if em.group(3) is not None and em.group(3) != "value":
+            raise Inconclusive("convert(): early return of an unrecognised expression")
+        early.append({"pred": PREDS[cond], "ok": em.group(3) is not None})
+    pre_left = re.sub(r"if\s+(.*?)\s*\{\s*return\s+(Ok\((\w+)\)|Err\(.*?\));\s*\}", "", pre, flags=re.S)
+    if pre_left.strip():
+        raise Inconclusive("convert(): unrecognised statements before the resolutions: %r" % pre_left.strip()[:80])
+    rest = rest[len(pre):]
+    g, rest2 = take(r"if\s+(\w+)\.category\s*(!=|==)\s*(\w+)\.category\s*\{\s*return Err\(anyhow!\(.*?\)\);\s*\}", rest)
     guard = None
     if g:
         guard = {"op": g.group(2), "lhs": g.group(1), "rhs": g.group(3)}
-    mres = re.search(r"let from = resolve_unit\((\w+)\)\?;\s*let to = resolve_unit\((\w+)\)\?;", cb)
+        rest = rest2
+    mres, rest = take(r"let from = resolve_unit\((\w+)\)\?;\s*let to = resolve_unit\((\w+)\)\?;", rest)
     if not mres:
         raise Inconclusive("convert(): resolution of the two identifiers not recognised")
-    c1 = re.search(r"let (\w+) = (\w+)\.convert_to_base\((\w+)\);", cb)
-    c2 = re.search(r"let (\w+) = (\w+)\.convert_from_base\((\w+)\);", cb)
-    if not c1 or not c2 or c2.group(3) != c1.group(1) or not re.search(r"Ok\(%s\)" % c2.group(1), cb):
+    c1, rest = take(r"let (\w+) = (\w+)\.convert_to_base\((\w+)\);", rest)
+    c2, rest = take(r"let (\w+) = (\w+)\.convert_from_base\((\w+)\);", rest)
+    if not c1 or not c2 or c2.group(3) != c1.group(1):
         raise Inconclusive("convert(): composition not recognised")
-    comp = {"first_unit": {mres.group(1): "from_unit", mres.group(2): "to_unit"}, "to_base_of": c1.group(2), "to_base_arg": c1.group(3), "from_base_of": c2.group(2),
-            "from_arg": mres.group(1), "to_arg": mres.group(2)}
+    okm, rest = take(r"Ok\(%s\)" % c2.group(1), rest)
+    if not okm:
+        raise Inconclusive("convert(): result expression not recognised")
+    if rest.strip():
+        raise Inconclusive("convert(): unrecognised statements: %r" % rest.strip()[:80])
+    comp = {"to_base_of": c1.group(2), "to_base_arg": c1.group(3), "from_base_of": c2.group(2),
+            "from_arg": mres.group(1), "to_arg": mres.group(2), "early": early}
+    if comp["from_arg"] != "from_unit" or comp["to_arg"] != "to_unit":
+        raise Inconclusive("convert(): the identifiers are resolved in an unexpected order")
     # resolve_unit decision list
     m = re.search(r"pub fn resolve_unit\(identifier: &str\) -> Result<Unit> \{(.*?)\n\}", src, re.S)
     if not m:
         raise Inconclusive("resolve_unit() not found")
     rb = m.group(1)
-    if not re.search(r"let is_exact = unit\.matches_exact\(identifier\);", rb) or \
-       not re.search(r"\.any\(\|alias\| alias\.to_lowercase\(\) == identifier_lower\)", rb) or \
-       not re.search(r"if is_exact \{\s*exact_matches\.push", rb) or not re.search(r"if is_case \{\s*case_matches\.push", rb):
+    if not re.search(r"let identifier_lower = identifier\.to_lowercase\(\);", rb):
+        raise Inconclusive("resolve_unit(): identifier_lower not recognised")
+    mx = re.search(r"let is_exact = unit\.matches_exact\(&?(identifier|identifier_lower)\);", rb)
+    mc = re.search(r"\.any\(\|alias\| (alias\.to_lowercase\(\)|\*?alias) == &?(identifier_lower|identifier)\)", rb)
+    if not mx or not mc or not re.search(r"if is_exact \{\s*exact_matches\.push", rb) or not re.search(r"if is_case \{\s*case_matches\.push", rb):
         raise Inconclusive("resolve_unit(): match collection not recognised")
+    matchsem = {"exact_query": mx.group(1), "case_alias": "lower" if "to_lowercase" in mc.group(1) else "raw", "case_query": mc.group(2)}
     if not re.search(r"pub fn matches_exact\(&self, identifier: &str\) -> bool \{\s*self\.identifiers\.contains\(&identifier\)", src):
         raise Inconclusive("matches_exact not recognised")
     decisions = []
@@ -238,7 +278,7 @@ def extract(src):
     if final is None:
         raise Inconclusive("resolve_unit(): final action not recognised")
     decisions.append(((None, None, None), final))
-    return {"rows": rows, "to_base": to_base, "from_base": from_base, "tfuncs": tfuncs, "guard": guard, "comp": comp, "decisions": decisions}
+    return {"rows": rows, "to_base": to_base, "from_base": from_base, "tfuncs": tfuncs, "guard": guard, "comp": comp, "decisions": decisions, "matchsem": matchsem}
 
 
 # ------------------------------------------------------------------------------------------
@@ -467,6 +507,15 @@ class Run:
         self.inconclusive = []
         self.timeout_ms = 60000 if tier == "quick" else 300000
 
+    def check_gross_first(self, name, constraints, diff_terms, tol):
+        """negated property |a - b| > tol; a model with a gross violation (1e3 x) is preferred as the
+        witness because it survives native rounding"""
+        a, b = diff_terms
+        m = self.check(name + " [gross]", constraints + [z3.Or(a - b > rv(tol * 1e6), b - a > rv(tol * 1e6))])
+        if m is not None:
+            return m
+        return self.check(name, constraints + [z3.Or(a - b > rv(tol), b - a > rv(tol))])
+
     def check(self, name, constraints, describe=None):
         s = z3.Solver()
         s.set("timeout", self.timeout_ms)
@@ -533,7 +582,8 @@ def main():
                 x = rng.choice([1.0, -2.5, 1e-9, 123456.789, 0.1, 3.0, 1e9, 273.15, -40.0]) * rng.choice([1, 1, 10, 0.001])
                 if c == "Temperature":
                     x = rng.uniform(-500, 5000)
-                lines.append("convert\t%s\t%s\t%s" % (f2hex(x), rng.choice(a_["ids"]), rng.choice(b_["ids"])))
+                # first (long, lower-case) names: resolution of aliases is decided by the identifier queries
+                lines.append("convert\t%s\t%s\t%s" % (f2hex(x), a_["ids"][0], b_["ids"][0]))
                 expect.append((a_, b_, x))
         outs = run_probe(binp, lines)
         nval = 0
@@ -584,14 +634,14 @@ def main():
                 for ua in us:
                     enc = EncAbs()
                     r, _ = temp_convert(enc, ex, ua, ua, xt)
-                    m = run.check("self %s/%s" % (c, ua["ids"][0]), [dom, z3.Or(r - x > rv(2e-9), x - r > rv(2e-9))] + enc.bounds())
+                    m = run.check_gross_first("self %s/%s" % (c, ua["ids"][0]), [dom] + enc.bounds(), (r, x), 2e-9)
                     if m is not None:
                         run.violations.append(("self-conversion", "convert(x, %s, %s) is not x within rounding" % (ua["ids"][0], ua["ids"][0]), [("convert", model_float(m, x), ua["ids"][0], ua["ids"][0])], {"abs": 2e-9}))
                     for ub in us:
                         enc = EncAbs()
                         y = temp_convert(enc, ex, ua, ub, xt)
                         back, _ = temp_convert(enc, ex, ub, ua, y)
-                        m = run.check("there-and-back %s/%s->%s" % (c, ua["ids"][0], ub["ids"][0]), [dom, z3.Or(back - x > rv(4e-9), x - back > rv(4e-9))] + enc.bounds())
+                        m = run.check_gross_first("there-and-back %s/%s->%s" % (c, ua["ids"][0], ub["ids"][0]), [dom] + enc.bounds(), (back, x), 4e-9)
                         if m is not None:
                             run.violations.append(("there-and-back", "convert(convert(x, %s, %s), %s, %s) is not x within rounding" % (ua["ids"][0], ub["ids"][0], ub["ids"][0], ua["ids"][0]),
                                                    [("convert", model_float(m, x), ua["ids"][0], ub["ids"][0])], {"abs": 4e-9}))
@@ -600,7 +650,7 @@ def main():
                             y = temp_convert(enc, ex, ua, ub, xt)
                             via, _ = temp_convert(enc, ex, ub, uc, y)
                             direct, _ = temp_convert(enc, ex, ua, uc, xt)
-                            m = run.check("transitivity %s/%s->%s->%s" % (c, ua["ids"][0], ub["ids"][0], uc["ids"][0]), [dom, z3.Or(via - direct > rv(6e-9), direct - via > rv(6e-9))] + enc.bounds())
+                            m = run.check_gross_first("transitivity %s/%s->%s->%s" % (c, ua["ids"][0], ub["ids"][0], uc["ids"][0]), [dom] + enc.bounds(), (via, direct), 6e-9)
                             if m is not None:
                                 run.violations.append(("transitivity", "A->B->C differs from A->C for %s, %s, %s" % (ua["ids"][0], ub["ids"][0], uc["ids"][0]),
                                                        [("convert", model_float(m, x), ua["ids"][0], ub["ids"][0]), ("convert", model_float(m, x), ua["ids"][0], uc["ids"][0])], {"chain": uc["ids"][0], "abs": 6e-9}))
@@ -735,20 +785,32 @@ def main():
         occ = [(ui, ident) for ui, r in enumerate(rows) for ident in r["ids"]]
         strs = sorted(set(s for _, s in occ) | set(s.lower() for _, s in occ) | set(s.upper() for _, s in occ))
         sid = {s: k for k, s in enumerate(strs)}
-        low = [sid[s.lower()] if s.lower() in sid else -1 for s in strs]
-        # per query string: number of units with an exact identifier, number with a case-insensitive one
-        exact_units = {k: sorted(set(ui for ui, s in occ if sid[s] == k)) for k in range(len(strs))}
+        # specification tables: per query string, the units having it as an exact identifier and the
+        # units having an identifier equal to it ignoring case
+        spec_exact = {k: sorted(set(ui for ui, s_ in occ if sid[s_] == k)) for k in range(len(strs))}
         lower_units = {}
-        for ui, s in occ:
-            lower_units.setdefault(s.lower(), set()).add(ui)
-        case_units = {k: sorted(lower_units.get(strs[k].lower(), ())) for k in range(len(strs))}
+        for ui, s_ in occ:
+            lower_units.setdefault(s_.lower(), set()).add(ui)
+        spec_case = {k: sorted(lower_units.get(strs[k].lower(), ())) for k in range(len(strs))}
+        # implementation tables: what resolve_unit's extracted matching computes
+        ms = ex["matchsem"]
+        def impl_exact_units(k):
+            qs = strs[k] if ms["exact_query"] == "identifier" else strs[k].lower()
+            return sorted(set(ui for ui, s_ in occ if s_ == qs))
+        def impl_case_units(k):
+            qs = strs[k] if ms["case_query"] == "identifier" else strs[k].lower()
+            return sorted(set(ui for ui, s_ in occ if (s_.lower() if ms["case_alias"] == "lower" else s_) == qs))
+        impl_exact = {k: impl_exact_units(k) for k in range(len(strs))}
+        impl_case = {k: impl_case_units(k) for k in range(len(strs))}
         q = z3.Int("q")
         ne, nc, fe, fc = z3.Int("n_exact"), z3.Int("n_case"), z3.Int("first_exact"), z3.Int("first_case")
+        sne, snc, sfe, sfc = z3.Int("spec_n_exact"), z3.Int("spec_n_case"), z3.Int("spec_first_exact"), z3.Int("spec_first_case")
+        R = range(len(strs))
         tbl = [q >= 0, q < len(strs),
-               table(q, ne, [len(exact_units[k]) for k in range(len(strs))]),
-               table(q, nc, [len(case_units[k]) for k in range(len(strs))]),
-               table(q, fe, [exact_units[k][0] if exact_units[k] else -1 for k in range(len(strs))]),
-               table(q, fc, [case_units[k][0] if case_units[k] else -1 for k in range(len(strs))])]
+               table(q, ne, [len(impl_exact[k]) for k in R]), table(q, nc, [len(impl_case[k]) for k in R]),
+               table(q, fe, [impl_exact[k][0] if impl_exact[k] else -1 for k in R]), table(q, fc, [impl_case[k][0] if impl_case[k] else -1 for k in R]),
+               table(q, sne, [len(spec_exact[k]) for k in R]), table(q, snc, [len(spec_case[k]) for k in R]),
+               table(q, sfe, [spec_exact[k][0] if spec_exact[k] else -1 for k in R]), table(q, sfc, [spec_case[k][0] if spec_case[k] else -1 for k in R])]
         # the decision list of resolve_unit, as extracted
         res_ok, res_unit = z3.Bool("res_ok"), z3.Int("res_unit")
         conds = []
@@ -769,17 +831,19 @@ def main():
             else:
                 chain_ok, chain_unit = z3.If(cnd, z3.BoolVal(False), chain_ok), z3.If(cnd, z3.IntVal(-1), chain_unit)
         sem = tbl + [res_ok == chain_ok, res_unit == chain_unit]
-        # (a) never guessed: Ok only for a unique exact match, or no exact match and a unique case match
-        m = run.check("resolution never guesses", sem + [res_ok, z3.Not(z3.Or(ne == 1, z3.And(ne == 0, nc == 1)))])
+        exact_units, case_units = spec_exact, spec_case
+        # (a) never guessed: Ok only for the unique exact match, or (no exact match and) the unique
+        #     case-insensitive match
+        m = run.check("resolution never guesses", sem + [res_ok, z3.Not(z3.Or(z3.And(sne == 1, res_unit == sfe), z3.And(sne == 0, snc == 1, res_unit == sfc)))])
         if m is not None:
             s_ = strs[m.eval(q).as_long()]
-            run.violations.append(("resolution", "identifier %r resolves although it is ambiguous or unknown" % s_, [("resolve", s_)], {"expect_err": True}))
+            run.violations.append(("resolution", "identifier %r resolves to a unit that is not its unique (exact / case-insensitive) match" % s_, [("resolve", s_)], {"expect_not_guess": True, "allowed": ([rows[spec_exact[sid[s_]][0]]["ids"][0]] if len(spec_exact[sid[s_]]) == 1 else ([rows[spec_case[sid[s_]][0]]["ids"][0]] if (not spec_exact[sid[s_]] and len(spec_case[sid[s_]]) == 1) else []))}))
         # (b) unambiguous identifiers resolve to their unit
-        m = run.check("unique exact identifier resolves to its unit", sem + [ne == 1, z3.Not(z3.And(res_ok, res_unit == fe))])
+        m = run.check("unique exact identifier resolves to its unit", sem + [sne == 1, z3.Not(z3.And(res_ok, res_unit == sfe))])
         if m is not None:
             s_ = strs[m.eval(q).as_long()]
             run.violations.append(("resolution", "identifier %r (unique exact match) does not resolve to its unit" % s_, [("resolve", s_)], {"expect_unit": rows[exact_units[sid[s_]][0]]["ids"][0]}))
-        m = run.check("unique case-insensitive identifier resolves to its unit", sem + [ne == 0, nc == 1, z3.Not(z3.And(res_ok, res_unit == fc))])
+        m = run.check("unique case-insensitive identifier resolves to its unit", sem + [sne == 0, snc == 1, z3.Not(z3.And(res_ok, res_unit == sfc))])
         if m is not None:
             s_ = strs[m.eval(q).as_long()]
             run.violations.append(("resolution", "identifier %r (unique case-insensitive match) does not resolve" % s_, [("resolve", s_)], {"expect_unit": rows[case_units[sid[s_]][0]]["ids"][0]}))
@@ -801,6 +865,38 @@ def main():
             blocked.append(s1 != sid[a_[1]])
             if len(blocked) > 20:
                 break
+
+        # ---- Q7 early returns of convert() decided on the identifier strings (symbolic occurrence pair)
+        for er in ex["comp"].get("early", []):
+            def key(sx):
+                return {"eq": sx, "eq_ascii_ci": "".join(ch.lower() if ch.isascii() else ch for ch in sx), "eq_ci": sx.lower()}[er["pred"]]
+            keys = sorted(set(key(s_) for _, s_ in occ))
+            kid = {k_: n_ for n_, k_ in enumerate(keys)}
+            k1, k2 = z3.Int("k1"), z3.Int("k2")
+            cat1, cat2, cf1, cf2 = z3.Int("cat1"), z3.Int("cat2"), z3.Real("cf1"), z3.Real("cf2")
+            def coefkey(r):
+                return Fraction(r["coef"]) if r["kind"] != "temperature" else Fraction(-1 - [t["ids"][0] for t in rows if t["kind"] == "temperature"].index(r["ids"][0]))
+            et = occ_tbl + [table(o1, k1, [kid[key(s_)] for _, s_ in occ]), table(o2, k2, [kid[key(s_)] for _, s_ in occ]),
+                            table(o1, cat1, [catid[rows[ui]["cat"]] for ui, _ in occ]), table(o2, cat2, [catid[rows[ui]["cat"]] for ui, _ in occ]),
+                            z3.And(*[z3.Implies(o1 == n_, cf1 == z3.RealVal(coefkey(rows[ui]))) for n_, (ui, _) in enumerate(occ)]),
+                            z3.And(*[z3.Implies(o2 == n_, cf2 == z3.RealVal(coefkey(rows[ui]))) for n_, (ui, _) in enumerate(occ)])]
+            # the shortcut fires (k1 == k2) although the two identifiers denote units whose conversion is not
+            # the identity (different category, or different coefficient / formula)
+            m = run.check("early return of convert() only where the conversion is the identity", et + [k1 == k2, u1 != u2, z3.Or(cat1 != cat2, cf1 != cf2)])
+            if m is not None:
+                a_, b_ = occ[m.eval(o1).as_long()], occ[m.eval(o2).as_long()]
+                ra_, rb_ = rows[a_[0]], rows[b_[0]]
+                if ra_["cat"] != rb_["cat"]:
+                    meta = {"want_err": True}
+                else:
+                    meta = {"want": (1.0 * ra_["coef"] / rb_["coef"]) if ra_["kind"] == "linear" and rb_["kind"] == "linear" else float("nan")}
+                run.violations.append(("early-return", "convert(x, %r, %r) takes a shortcut although %s and %s differ" % (a_[1], b_[1], ra_["ids"][0], rb_["ids"][0]), [("convert", 1.0, a_[1], b_[1])], meta))
+            # the shortcut also bypasses resolution: unknown / ambiguous identifiers must still be errors
+            if er["ok"]:
+                m = run.check("early return of convert() does not bypass the ambiguity errors", sem + [z3.Not(res_ok)] + ([] if True else []))
+                if m is not None:
+                    s_ = strs[m.eval(q).as_long()]
+                    run.violations.append(("early-return", "convert(x, %r, %r) returns a value although %r does not resolve" % (s_, s_, s_), [("convert", 1.0, s_, s_)], {"want_err": True}))
 
         # ---- replay every candidate violation through the real code
         confirmed, known_hits = [], []
@@ -841,10 +937,14 @@ def main():
                 elif kind == "category-guard":
                     ok = (o[0] == "ok") if meta.get("expect_err") else (o[0] != "ok")
                 elif kind == "resolution":
-                    if meta.get("expect_err"):
+                    if meta.get("expect_not_guess"):
+                        ok = o[0] == "ok" and o[2] not in meta["allowed"]
+                    elif meta.get("expect_err"):
                         ok = o[0] == "ok"
                     else:
                         ok = not (o[0] == "ok" and o[2] == meta["expect_unit"])
+                elif kind == "early-return":
+                    ok = (o[0] == "ok") if meta.get("want_err") else (o[0] != "ok" or abs(hex2f(o[1]) - meta["want"]) > 1e-9 * max(1.0, abs(meta["want"])))
                 elif kind == "duplicate-identifier":
                     ok = not (o[0] == "ok" and o[2] in meta["expect_unit_any"])
             key = "%s: %s" % (kind, desc)
@@ -861,8 +961,8 @@ def main():
         for key, k in known_hits:
             print("KNOWN-FINDING: property=%s %s [%s]" % (CID, k["what"], key))
         if confirmed:
-            os.makedirs(os.path.join(VERIF, "replays"), exist_ok=True)
-            rp = os.path.join(VERIF, "replays", "C17-units.json")
+            os.makedirs(os.path.join(os.environ.get("VERIF_EVIDENCE_DIR", VERIF), "replays") if os.environ.get("VERIF_EVIDENCE_DIR") else os.path.join(VERIF, "replays"), exist_ok=True)
+            rp = os.path.join(os.path.join(os.environ["VERIF_EVIDENCE_DIR"], "replays") if os.environ.get("VERIF_EVIDENCE_DIR") else os.path.join(VERIF, "replays"), "C17-units.json")
             json.dump({"property": CID, "violations": [{"what": k_, "native": d} for k_, d in confirmed],
                        "how_to_replay": "each entry lists the call made on blots_core::units::{convert,resolve_unit} (magnitudes as IEEE bit patterns) and what the real code returned"}, open(rp, "w"), indent=1)
             print("VIOLATION property=%s replay=%s" % (CID, rp))
@@ -904,8 +1004,8 @@ def main():
         "wall_s": round(time.time() - t0, 1),
         "violations": nviol,
     }
-    os.makedirs(os.path.join(VERIF, "evidence"), exist_ok=True)
-    json.dump(ev, open(os.path.join(VERIF, "evidence", "C17.json"), "w"), indent=1)
+    os.makedirs(os.environ.get("VERIF_EVIDENCE_DIR", os.path.join(VERIF, "evidence")), exist_ok=True)
+    json.dump(ev, open(os.path.join(os.environ.get("VERIF_EVIDENCE_DIR", os.path.join(VERIF, "evidence")), "C17.json"), "w"), indent=1)
     print("C17 %s: %d queries, %d unsat, %d violations, %d inconclusive, solver %.1f s, wall %.0f s" % (tier, run.queries, run.unsat, nviol, len(run.inconclusive), run.solver_time, time.time() - t0))
     return status
 
